@@ -59,7 +59,7 @@ def warmup(ctx):
     monitors.install()
 
 
-def gen_dde(rnd, want=None, single=False):
+def gen_dde(rnd, want=None, single=False, int_delays=False):
     """small DDE spec: 1-2 nodes, each with one operator with 2-3 state variables, delayed terms on some."""
     vals = gen.Vals(rnd)
     ops, nts, nodes = {}, {}, {}
@@ -82,6 +82,8 @@ def gen_dde(rnd, want=None, single=False):
         vars_[inname] = ['in', 0.0]
         eqs = []
         taus = [round(rnd.uniform(0.004, 0.03), 4) for _ in range(3)]
+        if int_delays:
+            taus = [float(x) for x in rnd.sample([1, 2, 3, 5, 10, 20, 30, 100], 3)]     # whole-number delays (x(t-10))
         for si, s in enumerate(names):
             ex = E.neg(E.mul(E.var('k'), E.var(s)))
             nd = rnd.choice([0, 1, 1, 2])
@@ -126,7 +128,7 @@ def gen_dde(rnd, want=None, single=False):
             a['delay'] = 1.0     # the value that PyRates also uses internally as its "no delay" marker
         edges.append(['n0/dde_op0/' + s_out, 'n1/dde_op1/u', None, a])
     spec = {'ops': ops, 'node_types': nts, 'edge_types': {}, 'circ': {'name': 'c', 'nodes': nodes, 'subs': {}, 'edges': edges}}
-    info = {'style': style, 'n_delays': n_delays_total, 'nonfirst': nonfirst, 'neg': bool(flags.get('neg'))}
+    info = {'style': style, 'n_delays': n_delays_total, 'nonfirst': nonfirst, 'neg': bool(flags.get('neg')), 'int_delays': bool(int_delays)}
     return spec, info
 
 
@@ -209,7 +211,8 @@ def run_case(case, ctx):
         spec, info = case['spec'], case['info']
     else:
         for _ in range(200):
-            spec, info = gen_dde(rnd, case.get('want'), single=case.get('family') == 'vectorized')
+            spec, info = gen_dde(rnd, case.get('want'), single=case.get('family') == 'vectorized',
+                                 int_delays=case.get('mode', '').startswith('probe') and rnd.random() < 0.2)
             if info['n_delays'] >= 1 and (case.get('want') != 'negative_coefficient_on_past' or info['neg']):
                 break
         if case.get('family') == 'vectorized':
@@ -220,6 +223,7 @@ def run_case(case, ctx):
             info['vec_n'] = N
     mode = case['mode']
     E.PAST_STYLE[0] = info['style']
+    E.INT_DELAY_STYLE[0] = bool(info.get('int_delays'))
     mech = {}
     risk = []
     ref = RefModel(spec)
@@ -323,6 +327,7 @@ def run_case(case, ctx):
         res.update(status='violation', symptom=('silent: ' if 'loud' not in s else '') + s, mech=mech, spec=spec)
     finally:
         E.PAST_STYLE[0] = 'past'
+        E.INT_DELAY_STYLE[0] = False
     return res
 
 
